@@ -7,7 +7,8 @@ RULE = ('every node of every generated graph x {children, parents, ancestors, de
         'label sets stressing ordering; random: chains, trees, stars, forests, layered diamonds, shortcut edges, dense DAGs, edges '
         'shuffled / grouped by subject / grouped by object. A case (graph, factory) is non-trivial when the graph has a node with '
         '>= 2 parents, or >= 2 parentless terms, or a path of length >= 3; distinct by (factory, edge list). Plus big graphs (chain of '
-        '1150, tree with shortcuts of 500, star of 700, 7-root forest of 300 nodes; several thousand in the thorough tier) whose answers '
+        '1150, tree with shortcuts of 500, star of 700, 7-root forest of 300 nodes, complete DAGs of 40 nodes / 780 edges and of 370 nodes / 68 265 edges and a star of '
+        '66 500 nodes, i.e. beyond 2^16 edges and beyond 2^16 nodes; larger in the thorough tier) whose answers '
         'for sampled nodes are compared with an independent closure computed by the harness (integer widths, recursion depth).')
 
 THEOREM = 'Hpv.Props.C01.*'
@@ -16,11 +17,29 @@ THEOREM = 'Hpv.Props.C01.*'
 def queries_for(edges):
     _, TermId, _, _ = gl._hp()
     qs = []
-    for v in gl.nodes_of(edges):
+    nodes = gl.nodes_of(edges)
+    # on small graphs the very first thing a fresh graph is asked are PREDICATES (a predicate may stop a traversal at its first hit,
+    # so whatever the graph remembers from it is incomplete): what a query returns does not depend on what was asked before
+    if len(nodes) <= 8 and len(edges) % 2 == 0:
+        for a in nodes:
+            for b in nodes:
+                for p in ('ancestorOf', 'descendantOf'):
+                    qs.append((['pred', p, a, b], ['pred', p, TermId.from_curie(a), TermId.from_curie(b)]))
+    for v in nodes:
         t = TermId.from_curie(v)
         for q in gl.QS:
             for incl in (False, True):
                 qs.append((['q', q, v, incl], ['q', q, t, incl]))
+    # ... and the closures once more after the graph has answered predicates for nodes it already traversed completely
+    if len(nodes) <= 8 and len(edges) % 2 == 1:
+        for a in nodes:
+            for b in nodes:
+                for p in ('ancestorOf', 'descendantOf'):
+                    qs.append((['pred', p, a, b], ['pred', p, TermId.from_curie(a), TermId.from_curie(b)]))
+        for v in nodes:
+            t = TermId.from_curie(v)
+            for q in ('ancestors', 'descendants'):
+                qs.append((['q', q, v, False], ['q', q, t, False]))
     return qs
 
 
@@ -85,13 +104,17 @@ def big_graphs(ctx, rng, thorough):
     sizes), checked against an independent closure computed here; the Lean model is not involved (it is proved for every size)"""
     _, TermId, _, _ = gl._hp()
     sizes = {'chain': 1150 if not thorough else 2600, 'tree+shortcuts': 500 if not thorough else 1500, 'star': 700 if not thorough else 3000,
-             'multi-root-forest': 300 if not thorough else 900}
+             'multi-root-forest': 300 if not thorough else 900,
+             # beyond 2^15 edges with few nodes, and beyond 2^16 nodes: where 16-bit offsets / indices would wrap
+             'dense-small': 40, 'dense': 370, 'huge-star': 66500, **({'huge-chain': 70000} if thorough else {})}
     for shape, n in sizes.items():
         ids = [f'HP:{i:07d}' for i in rng.sample(range(1, 50 * n), n)]
-        if shape == 'chain':
+        if shape in ('chain', 'huge-chain'):
             edges = [(ids[i], ids[i - 1]) for i in range(1, n)]
-        elif shape == 'star':
+        elif shape in ('star', 'huge-star'):
             edges = [(ids[i], ids[0]) for i in range(1, n)]
+        elif shape in ('dense', 'dense-small'):
+            edges = [(ids[j], ids[i]) for j in range(1, n) for i in range(j)]
         elif shape == 'tree+shortcuts':
             edges = [(ids[i], ids[rng.randrange(i)]) for i in range(1, n)]
             for _ in range(n // 3):
@@ -122,7 +145,7 @@ def big_graphs(ctx, rng, thorough):
             return seen
         probes = [edges[0][0], edges[-1][1]] + rng.sample(ids[:n], 8) + (['owl:Thing'] if len(parentless) > 1 else parentless[:1])
         for f in gl.FACTORIES:
-            if f == 'builder' and n > 1600:
+            if f == 'builder' and (n > 1600 or shape == 'dense'):
                 continue            # the deprecated builder is quadratic
             ctx.case(['big', shape, n, f], True, 'big-graphs(independent oracle)', sample={'shape': shape, 'nodes': n, 'factory': f})
             try:
